@@ -127,7 +127,7 @@ type storeRun struct {
 
 func (r *storeRun) project(stepIdx int) ([]entJ, string) {
 	var (
-		got  []entJ
+		got  = []entJ{}
 		prob string
 	)
 
@@ -474,7 +474,7 @@ func TestStoreReplay(t *testing.T) {
 			}
 
 			if traceOut != nil {
-				line, _ := json.Marshal(map[string]interface{}{"kind": kind, "b": bi, "steps": r.obs})
+				line, _ := json.Marshal(map[string]interface{}{"kind": kind, "b": bi, "steps": r.obs, "ok": v == nil})
 				_, _ = traceOut.Write(append(line, '\n'))
 			}
 		}
